@@ -341,9 +341,20 @@ func init() {
 			var guard *ssa.BasicBlock
 			for _, b := range cs.Blocks {
 				if ifi, ok := b.Instrs[len(b.Instrs)-1].(*ssa.If); ok {
-					if bin, ok := ifi.Cond.(*ssa.BinOp); ok && bin.Op == token.GTR {
-						if lk, ok := bin.X.(*ssa.Lookup); ok && strings.HasSuffix(accessPath(lk.X), ".fieldsMap") {
-							guard = b.Succs[0]
+					if bin, ok := ifi.Cond.(*ssa.BinOp); ok {
+						lk, isLk := bin.X.(*ssa.Lookup)
+						k, isK := constInt(bin.Y)
+						if isLk && isK && k == 0 && strings.HasSuffix(accessPath(lk.X), ".fieldsMap") {
+							// the successor on which fieldsMap[field] != 0 (the field is known)
+							switch bin.Op {
+							case token.GTR, token.NEQ:
+								guard = b.Succs[0]
+							case token.EQL, token.LEQ:
+								guard = b.Succs[1]
+							}
+							if guard != nil && len(guard.Preds) != 1 {
+								guard = nil
+							}
 						}
 					}
 				}
